@@ -107,6 +107,20 @@ Definition sf_parse (msg : bytes) : option (bytes * bytes * Z) :=
   | _ => None
   end.
 
+(* the channel binding initialClientMessage selects: tls-unique unless TLSUnique is nil or the version is TLS 1.3 or
+   later, then tls-exporter (None: ExportKeyingMaterial failed) *)
+Definition cb_select (ti : tls_info) : option (bytes * bytes) :=
+  match (match ti_unique ti with
+         | Some d => if ti_v13 ti then None else Some d
+         | None => None
+         end) with
+  | Some d => Some (bs "tls-unique", d)
+  | None => match ti_exporter ti with
+            | Some d => Some (bs "tls-exporter", d)
+            | None => None
+            end
+  end.
+
 Section Scram.
   Variable H : bytes -> bytes.
   Variable HMAC : bytes -> bytes -> bytes.      (* key, message *)
@@ -154,19 +168,7 @@ Section Scram.
               match sid_tls id with
               | None => (st1, rands', None)
               | Some ti =>
-                  let pick :=
-                    match ti_unique ti with
-                    | Some d => if ti_v13 ti then None else Some d
-                    | None => None
-                    end in
-                  let sel := match pick with
-                             | Some d => Some (bs "tls-unique", d)
-                             | None => match ti_exporter ti with
-                                       | Some d => Some (bs "tls-exporter", d)
-                                       | None => None
-                                       end
-                             end in
-                  match sel with
+                  match cb_select ti with
                   | None => (st1, rands', None)
                   | Some (bt, d) =>
                       let st2 := {| ss_bare := bare; ss_nonce := nonce; ss_salted := ss_salted st; ss_authmsg := ss_authmsg st;
